@@ -284,7 +284,7 @@ def prodos_tree_stream(ctx):
     rng = ctx.rng
     quick = ctx.tier == 'quick'
     sets = ['0', '1', '0-1', '0,2', '255', '0-255', '254-255', '256', '0,256', '0-256', '255-256', '257', '1,257', '511', '512', '0,511-513', '39', '300',
-            '0,255,256,600,1300', '767-769', '1023-1025', '32767', '0,32767', '256,32767', '32768', '40000', '0-300', '0-600']
+            '0,255,256,600,1300', '767-769', '1023-1025', '32767', '0,32767', '256,32767', '32768', '40000', '0-300', '0-600', '32767F', '0,32767F', '32766F', '0F', '0-256F']
     for _ in range(12 if quick else 200):
         n = rng.choice([1, 2, 3, 8, 30])
         top = rng.choice([2, 256, 257, 600, 1300, 5000, 32768])
@@ -293,6 +293,7 @@ def prodos_tree_stream(ctx):
     lines = [f"pdtree pt{i} po:3.5in-ds {s}" for i, s in enumerate(sets)]
     lines += [f"pdtree pu{i} po:5.25in {s}" for i, s in enumerate(sets[:20])]
     canon = lambda toks, text: None if text is None else ('refused' if text.startswith('refused') else text)
+    probe = lines
     fw.correspond(ctx, 'prodos-structure (storage type, key, block count, master and index tables after put on a fresh volume vs Fs/ProdosTree.v)', lines, canon=canon,
                   trivial=lambda toks, out: out is None or out.startswith('refused'))
 
